@@ -39,6 +39,7 @@ KEY_ITER = 'iter-elim-loop-body-mutates-a-source-list'
 KEY_FUSE_WHILE = 'fuse-hoists-reduction-out-of-while-condition'
 KEY_FUSE_SC = 'fuse-hoists-reduction-out-of-short-circuit-operand'
 KEY_FUSE_TARGET = 'fuse-comprehension-target-clobbers-variable'
+KEY_GENSYM = 'gensym-temporary-collides-with-user-name'
 
 
 class _Timeout(Exception):
@@ -350,7 +351,7 @@ def run(ck):
         ck.props('Props/C08.v')
 
     fams = ['while', 'for', 'for', 'iter', 'iter', 'fuse']
-    nprog = 900 if thorough else 150
+    nprog = 900 if thorough else 120
     cases, info = [], []
     rejected = 0
     t0 = time.time()
@@ -416,27 +417,38 @@ def run(ck):
                'position, user names clashing with temporaries, declared low-precision contexts) x real strategy configurations '
                '(unroll counts 0..4, PEEL/STRICT, split factors 1..4 and variable, where = index / cursor / all) x list lengths '
                '0,1,k-1,k,k+1,2k,2k+1,random; non-trivial = distinct (program, configuration) pairs')
-    bad, err = ck.coq_eval_mismatches(HEADER, 'case8', cases, 'check8', chunk=max(2, len(cases) // 64 + 1), timeout=1500)
+    bad, err = ck.coq_eval_mismatches(HEADER, 'case8', cases, 'check8', chunk=max(2, len(cases) // 16 + 1), timeout=1500)
     if err:
         ck.broken.append('correspondence evaluation failed: ' + err[:600])
     struct_bad = 0
+    import re
+    diag = {}
+    if bad:
+        # one batch: loading the libraries dominates the cost of a coqc run
+        out = ck.coq_eval_raw(HEADER, 'map diag8 [' + ';\n'.join(cases[i] for i in bad[:60]) + ']', name='diag', timeout=1200)
+        body = out.split(': list (list bool)')[0]
+        groups = re.findall(r'\[([^\[\]]*)\]', body)
+        groups = [[x == 'true' for x in re.findall(r'\b(true|false)\b', g)] for g in groups if g.strip()]
+        if len(groups) == len(bad[:60]):
+            diag = dict(zip(bad[:60], groups))
+        else:
+            ck.broken.append('diagnosis of the failing cases did not evaluate: ' + out[-300:])
     for i in bad:
         idx, prog, cfg, metas, tf = info[i]
-        out = ck.coq_eval_raw(HEADER, f'diag8 {cases[i]}', name=f'diag_{i:05d}', timeout=600)
-        import re
-        flags = [x == 'true' for x in re.findall(r'\b(true|false)\b', out.split(': list bool')[0])]
+        flags = diag.get(i, [])
         struct_ok = bool(flags) and flags[0]
-        per_run = [tuple(flags[1 + 3 * j: 4 + 3 * j]) for j in range((len(flags) - 1) // 3)]
+        collision = len(flags) > 1 and flags[1]
+        per_run = [tuple(flags[3 + 3 * j: 6 + 3 * j]) for j in range((len(flags) - 3) // 3)]
         flat = repr(flags)
         hz = hazards(prog.funcs[0], cfg)
         replay = {'program_index': idx, 'program': prog.source(), 'config': repr(cfg), 'transformed': tf.format(),
-                  'runs': metas, 'diag (struct_ok, [(preserved, model=orig, model=transformed)])': flat[-1500:]}
+                  'runs': metas, 'diag [struct_ok, name_collision, matches_as_coded_model, (preserved, model=orig, model=transformed)*]': flat[-1500:]}
         prop_fail = [m for m, pr in zip(metas, per_run) if pr and not pr[0]]
         if not flags:
-            ck.broken.append('diagnosis of a failing case did not evaluate: ' + out[-300:])
+            prop_fail = [m for m in metas if m['precondition'] and m['original'].startswith('(ROk') and m['original'] != m['transformed']]
         if prop_fail:
-            key = None
-            for k in (KEY_ITER, KEY_FUSE_WHILE, KEY_FUSE_SC, KEY_FUSE_TARGET):
+            key = KEY_GENSYM if collision else None
+            for k in (() if collision else (KEY_ITER, KEY_FUSE_WHILE, KEY_FUSE_SC, KEY_FUSE_TARGET)):
                 if k in hz:
                     key = k
                     break
@@ -445,8 +457,9 @@ def run(ck):
                          replay, key=key)
         elif not struct_ok:
             struct_bad += 1
-            ck.violation('the function returned by the real strategy differs structurally from the output of the Gallina model of the transform',
-                         replay)
+            ck.violation('the function returned by the real strategy differs structurally from the output of the Gallina model of the transform'
+                         + (' (a generated temporary has the name of a user variable)' if collision else ''),
+                         replay, key=(KEY_GENSYM if collision else None))
         else:
             ck.violation('fpy2 and the Gallina evaluator disagree on a program of the loop-restructuring correspondence',
                          replay)
